@@ -7,7 +7,7 @@ import (
 	"sync/atomic"
 	"unsafe"
 
-	"github.com/whoisnian/glb/zzverif/vsched"
+	"verif/engine/shim/vsched"
 )
 
 type cell struct {
